@@ -28,6 +28,83 @@ from rsx import Index, Edits
 from extract import Lost
 
 
+def _macro_args(text, i):
+    """text[i] == '(' -> (list of top-level comma separated args, index after ')')"""
+    depth = 0
+    args, cur = [], []
+    j = i
+    while True:
+        c = text[j]
+        if c in "([{":
+            depth += 1
+            if depth > 1:
+                cur.append(c)
+        elif c in ")]}":
+            depth -= 1
+            if depth == 0:
+                args.append("".join(cur).strip())
+                return args, j + 1
+            cur.append(c)
+        elif c == "," and depth == 1:
+            args.append("".join(cur).strip())
+            cur = []
+        else:
+            cur.append(c)
+        j += 1
+
+
+def macro_clauses(name, args):
+    """-> list of (clause expression, comment with property tags)"""
+    if name == "WF":
+        p = args[0]
+        return [("%s.cwf()" % p, "[C03] cursor: pos in range, current is the token at pos"),
+                ("%s.twf()" % p, "[C01,C02] tree builder state: laminar, leaves are the consumed tokens in order"),
+                ("%s.ewf()" % p, "[C06] error state: diagnostic positions strictly increasing")]
+    q, p = args[0], args[1]
+    cl = [("%s.cwf()" % q, "[C03]"), ("%s.twf()" % q, "[C01,C02]"), ("%s.ewf()" % q, "[C06]"),
+          ("%s.same_input(%s)" % (q, p), "[C01] the input is never modified"),
+          ("%s.pos >= %s.pos" % (q, p), "[C03] the cursor never moves backwards"),
+          ("%s.nlen() >= %s.nlen()" % (q, p), "[C01,C08] nothing is removed from the tree")]
+    if name == "STEP":
+        cl.append(("(forall|k: int| #[trigger] %s.mk(k) ==> %s.mk(k))" % (p, q), "[C01,C02] sibling boundaries stay valid"))
+    else:
+        cl.append(("(forall|k: int| #[trigger] %s.mk(k) && k <= %s ==> %s.mk(k))" % (p, args[2], q), "[C01,C02] sibling boundaries stay valid"))
+    cl.append(("%s.dpre(%s)" % (q, p), "[C06,C08] diagnostics already reported stay as they are"))
+    if name == "STEP":
+        cl.append(("%s.rstack() == %s.rstack()" % (q, p), "[C02] every node opened is closed again"))
+    return cl
+
+
+def expand_macros(text, indent="            "):
+    """Clause macros: one contract clause per line, each tagged with the properties it carries, so
+    that a failed obligation names its property.
+       WF!(p)            p.cwf(), p.twf(), p.ewf()
+       STEP!(q, p)       what every parsing step guarantees (q = post state, p = pre state)
+       STEPB!(q, p, b)   the same with boundary marks preserved only up to b"""
+    out = []
+    i = 0
+    pat = re.compile(r"\b(WF|STEPB|STEP)!\(")
+    while True:
+        m = pat.search(text, i)
+        if not m:
+            out.append(text[i:])
+            break
+        out.append(text[i:m.start()])
+        args, j = _macro_args(text, m.end() - 1)
+        cl = macro_clauses(m.group(1), args)
+        mm = re.match(r"[ \t]*,", text[j:])
+        comma_after = bool(mm)
+        if mm:
+            j += mm.end()
+        lines = []
+        for k, (e, c) in enumerate(cl):
+            last = k == len(cl) - 1
+            lines.append("%s%s   // %s" % (e, "," if (not last or comma_after) else "", c))
+        out.append(("\n" + indent).join(lines) + "\n" + indent)
+        i = j
+    return "".join(out)
+
+
 def parse_sidecar(text):
     blocks = []
     cur = None
@@ -162,7 +239,7 @@ def merge(src, sidecar_text, report=None):
 
 
 def merge_into(ix, ed, sidecar_text, report=None):
-    blocks = parse_sidecar(sidecar_text)
+    blocks = parse_sidecar(expand_macros(sidecar_text))
     st = ix.st
     applied = []
     for b in blocks:
